@@ -18,7 +18,7 @@ from harness import framework, tlc, c05, c17
 from harness import dec_common as D
 
 QUICK_FILL = ["zeros", "ones", "boundary", "random+p"]
-THOROUGH_FILL = ["zeros", "ones"] + ["boundary"] * 6 + ["random"] * 16 + ["random+p"] * 6 + ["boundary+p"] * 2
+THOROUGH_FILL = ["zeros", "ones"] + ["boundary"] * 4 + ["random"] * 8 + ["random+p"] * 4 + ["boundary+p"] * 2
 
 
 def model_runs(ctx, quick):
